@@ -170,7 +170,8 @@ MLChecks(q, s) ==
 \* --- send_join ----------------------------------------------------------
 \*  q = [origin, room, eid, ev]   ev = [type, mship, ssrv, skey, room, via, sig, auth]
 \*  ev.sig describes the signatures relative to the sender's server:
-\*    valid none wrongkey other (only another server signed) tampered expired
+\*    valid none wrongkey other (only another server signed) tampered
+\*    expired / revoked (really signed, but the key's valid_until_ts / expired_ts lies before the event's time)
 SJChecks(q, s) ==
     LET e == q.ev IN
     << Chk("rv",        s.rv = "known",                            "M_UNSUPPORTED_ROOM_VERSION"),
